@@ -100,7 +100,7 @@ CHECKS["C13"] = (
 
 CHECKS["C11"] = (
     "CrossHair-explored selector space (log sources, rule list forms, detection names and condition forms on both sides, stacking, draw of the internal prefix with random.choices stubbed) through the real collection loading + conversion; per rule one z3 query decides equivalence of the converted query with (rule) AND (filter over its own detections)",
-    "10 rule name/condition sets x 11 filter name/condition sets (overlapping names, names starting with keywords / digits / underscore, wildcard patterns, parenthesised groups, a name colliding with the drawn prefix) x 1..2 stacked filters x 3 draws; all 3^6 log source combinations x 8 rule-list forms; a bystander rule must stay unchanged; no internal identifier in any query. Thorough: the name/condition/stacking/draw space crossed with 9 category relations x 4 rule-list forms.",
+    "12 rule name/condition sets x 11 filter name/condition sets (overlapping names, names starting with keywords / digits / underscore, wildcard patterns, parenthesised groups, a name colliding with the drawn prefix) x 1..2 stacked filters x 3 draws; all 3^6 log source combinations x 9 rule-list forms (incl. id in upper case); a bystander rule must stay unchanged; no internal identifier in any query. Thorough: the name/condition/stacking/draw space crossed with 9 category relations x 4 rule-list forms.",
     TB,
     "5.C11",
 )
